@@ -792,7 +792,7 @@ pub fn is_core(s: &Script) -> bool {
 }
 
 pub fn stats_dir() -> std::path::PathBuf {
-    std::path::PathBuf::from("/verif/.work/C20-stats")
+    std::path::PathBuf::from(format!("{}/.work/C20-stats", vcheck::root()))
 }
 
 impl Prop for C20 {
